@@ -10,7 +10,9 @@
 #include <iostream>
 #include <sstream>
 #include <string>
+#include <sys/resource.h>
 #include <sys/wait.h>
+#include <xbt/config.hpp>
 #include <unistd.h>
 #include <vector>
 #include <cstdint>
@@ -70,6 +72,9 @@ int main()
         pid_t pid = fork();
         if (pid == 0) {
           fclose(stderr);
+          struct rlimit rl = {0, 0};
+          setrlimit(RLIMIT_CORE, &rl); // the abort must not write a core
+          simgrid::config::set_as_string("debug/stacktrace", "none"); // nor symbolise a backtrace (1 s each)
           simgrid::xbt::random::XbtRandom r(seed);
           int v = r.uniform_int(mn, mx);
           printf("%s => %d\n", line.c_str(), v);
